@@ -412,7 +412,7 @@ ODD = ["d0/..data", "d0/...", "d0/.x", "d1/..", "d0/a%20b", "d0/%C3%A9%E2%82%AC"
 
 def gen_prog(rng, nops):
     """programs over a small name space so that ops hit existing / missing / wrong-type targets"""
-    prog = ["mkdir d0 755", "mkdir d1 700", "open 0 d0/f0 rwc 644", "open 1 f2 rwc 600"]
+    prog = ["mkdir d0 755", "mkdir d1 700", "open 0 d0/f0 rwc 644", "open 1 f2 rwc 600", "symlink gone dl"]
     opened = {0, 1}
     P = lambda: rng.choice(PATHS)
     F = lambda: rng.choice(FILES)
@@ -482,7 +482,15 @@ def gen_prog(rng, nops):
         elif r < 84:
             prog.append(f"chmod {P()} {rng.choice(['600', '644', '400', '755'])}")
         elif r < 85:
-            prog.append(f"fchmod {S()} {rng.choice(['600', '640'])}")
+            if rng.below(2):
+                prog.append(f"fchmod {S()} {rng.choice(['600', '640'])}")
+            else:
+                # ownership (root only; harness skips real changes otherwise): files, live links, dangling links, -1 for either id
+                k = rng.choice(["chown", "lchown", "lchown", "fchown"])
+                tgt = S() if k == "fchown" else rng.choice(["l0", "d0/l1", "f2", "d0/f0", "d0", "nope", "dl"])
+                prog.append(f"{k} {tgt} {rng.choice([-1, 0, 1, 7, 1000])} {rng.choice([-1, 0, 2, 9, 1000])}")
+                if k != "fchown":
+                    prog.append(f"lstat {tgt}"); prog.append(f"stat {tgt}")
         elif r < 88:
             k = rng.choice(["utime", "lutime", "futime"])
             prog.append(f"{k} {S() if k == 'futime' else P()} {rng.range(1000, 999999)} {rng.range(1000, 999999)}")
@@ -529,16 +537,17 @@ def judge_routes(prog, res, force_ref=None):
     live = [r for r in res if not (res[r][1][:1] == ["ROUTE-SKIPPED uring"])]
     for r in live:
         rc, lines, err = res[r]
-        if rc == -999:
+        bang = [l for l in lines if l.startswith("!")]
+        if rc == -999 and not bang:
             k = len(lines)
             return (f"routes-hang-{r}", f"route {r}: no completion within the timeout after {k} result lines; pending op "
                                         f"`{(prog + ['(end of program)'])[min(k, len(prog))][:120]}` (request never called back / loop never returned)", r, None)
-        if rc != 0:
+        if rc != 0 and not bang:
             return (f"routes-crash-{r}", f"route {r}: harness exited {rc}: {err[-700:]}", r, None)
-        bang = [l for l in lines if l.startswith("!")]
         if bang:
             kind = bang[0].split()[0][1:]
             why = ("each async request must invoke its callback exactly once" if kind.startswith("cb") else
+                   "after the only pending request has called back nothing may keep the loop alive (request registered twice / never unregistered)" if kind.startswith("loop") else
                    "every stat field must equal what statx(2)/statfs(2) reports for the same object at that moment" if kind.startswith("stat") else "")
             return (f"{kind}-{r}", f"route {r}: {bang[0]} ({why})", r, None)
     # majority = reference
